@@ -718,11 +718,42 @@ def run(case, rec):
         run_repeat(case, rec)
 
 
+def run_empty_storage(case, rec):
+    """Round 7 (C15_19): a storage that holds the field description but no frame (a run that was stopped before its first
+    output) gives the same, empty, time course - or the same refusal - whatever the number of worker processes."""
+    import droplets
+    from pde import MemoryStorage, ScalarField, UnitGrid
+
+    storage = MemoryStorage()
+    storage.start_writing(ScalarField(UnitGrid(case["shape"])))
+    storage.end_writing()
+    if len(storage) != 0:
+        rec.harness_error("storage without frames is not empty")
+        return
+    ref = common.monitored(rec, "from_storage", droplets.EmulsionTimeCourse.from_storage, storage, num_processes=1, progress=False)
+    for n in case["workers"]:
+        c = common.monitored(rec, "from_storage", droplets.EmulsionTimeCourse.from_storage, storage, num_processes=n, progress=False)
+        same = (c.ok == ref.ok) and (not c.ok or (len(c.result) == len(ref.result) and list(c.result.times) == list(ref.result.times)))
+        rec.check(bool(same), "same-as-serial",
+                  f"storage without frames on a {case['shape']} grid: num_processes={n!r} gives "
+                  f"{'raised ' + repr(c.exc) if not c.ok else str(len(c.result)) + ' frames'}, num_processes=1 gives "
+                  f"{'raised ' + repr(ref.exc) if not ref.ok else str(len(ref.result)) + ' frames'}")
+    rec.count("storages_without_frames")
+    rec.evaluated(nontrivial=True)
+
+
 def run_shard(spec, rec):
     from droplets import emulsions
     from droplets import image_analysis as ia
 
     rec.watch(ia.refine_droplets, emulsions.EmulsionTimeCourse.from_storage)
+    if spec["kind"] == "storage":
+        case = {"shape": [8 + spec.get("start", 0) % 5, 8], "workers": [2, 3, "auto"]}
+        with rec.case("empty-storage", case):
+            try:
+                run_empty_storage(case, rec)
+            except Exception as e:  # noqa: BLE001
+                rec.harness_error("empty-storage", e)
     with Injector():
         if spec["kind"] == "repeat":
             try:
@@ -745,6 +776,8 @@ def replay(v, rec):
                 a = common.monitored(rec, f"history:{c['what']}", _once, f, c["what"])
                 if rec.check(a.ok and b.ok, "no-exception", f"{c['what']} raised"):
                     rec.check(a.result == b.result, "repeatable", f"{c['what']} differs after unrelated analyses")
+            elif v["kind"] == "empty-storage":
+                run_empty_storage(v["case"], rec)
             else:
                 run(v["case"], rec)
 
